@@ -42,6 +42,13 @@ CONFIGS["mixed_array"] = {'cps': [{'type': ('bit', 3), 'bins': [['b', 'bin', [1,
 CONFIGS["trimmed"] = {'cps': [{'type': ('bit', 3), 'bins': [['s', 'bin', 0], ['a', 'arr', None, [0, 7]]], 'ignore': [['ig', [1, 6]]]},
                               {'type': ('bit', 3), 'bins': None, 'auto_bin_max': 64, 'ignore': [['ig', [[2, 3]]]]}],
                       'crosses': [], 'values': [(0, 0), (5, 4), (1, 2)]}
+CONFIGS["many_special"] = {'cps': [{'type': ('bit', 3), 'bins': [['a', 'arr', None, [0, 2]]],
+                                    'ignore': [['ig0', [3]], ['ig1', [4]], ['ig2', [5]]],
+                                    'illegal': [['il0', [6]], ['il1', [7]], ['il2', [[6, 7]]], ['il3', [3]]]}],
+                           'crosses': [], 'values': [(1,), (6,), (4,)]}
+CONFIGS["x_atleast"] = {'cps': [{'type': ('bit', 2), 'bins': [['lo', 'bin', 0, 1], ['hi', 'bin', 2, 3]], 'at_least': 2},
+                                {'type': ('bit', 2), 'bins': [['a', 'arr', None, [0, 1]], ['r', 'bin', [2, 3]]], 'at_least': 1}],
+                        'crosses': [['x', [0, 1], None, {'at_least': 2}], ['y', [1, 0], None, {'at_least': 1}]]}
 SHAPES = ("full", "small")     # 'small' drops the last bin entry of coverpoint 0
 VALUES = {1: [(0,), (3,), (2,)], 2: [(0, 0), (3, 1), (2, 3)]}
 MAX_INST = 3
@@ -63,6 +70,14 @@ class World(object):
         self.cfg = CONFIGS[cfgname]
         self.spec = {'cps': self.cfg['cps'], 'crosses': self.cfg['crosses'], 'options': self.cfg.get('options')}
         self.CG = cov.build_cg(self.spec)
+        # a second covergroup class (another type name) lives in the same registry
+        @vsc.covergroup
+        class OtherCG(object):
+            def __init__(self):
+                self.with_sample(dict(z=vsc.bit_t(2)))
+                self.cpz = vsc.coverpoint(self.z, bins=dict(z=vsc.bin_array([], [0, 3])))
+        self.other = OtherCG()
+        self.other.sample(1)
         self.insts = []       # (shape, cg object)
         self.ref = []         # per instance: dict(shape, cp hits [..], ig, il, cross hits)
 
@@ -132,8 +147,10 @@ class World(object):
             al = self.at_least(k)
             items.append((self.weight(k), 100.0 * sum(1 for c in h if c >= al) / len(h) if h else 0.0))
         xal = (self.cfg.get('options') or {}).get('at_least', 1)
-        for h in x_hits:
-            items.append((1, 100.0 * sum(1 for c in h if c >= xal) / len(h) if h else 0.0))
+        for j, h in enumerate(x_hits):
+            cr = self.cfg['crosses'][j]
+            al = (cr[3] or {}).get('at_least', xal) if len(cr) > 3 else xal
+            items.append((1, 100.0 * sum(1 for c in h if c >= al) / len(h) if h else 0.0))
         tw = sum(w for w, _ in items)
         return sum(w * c for w, c in items) / tw if tw else 100.0, [c for _, c in items]
 
